@@ -151,7 +151,8 @@ def check(model, rep):
             rep.ob('R07.3', kc, 'clamp: ' + src(t), ok, 'clamp statement does not set joint j to the bound it violates: ' + src(st)[:90], line=st.lineno)
         rep.ob('R07.3', kc, 'both bounds clamped', seen == {'lower', 'upper'}, 'clamp handles %s bound(s) only' % sorted(seen), line=lp.lineno)
         # order inside the while body: update < clamp < recomputation of the pose
-        upd = [s for s in w.body if isinstance(s, ast.Assign) and src(s.targets[0]) == th and s.lineno < lp.lineno]
+        upd = [s for s in w.body if ((isinstance(s, ast.Assign) and src(s.targets[0]) == th) or
+                                     (isinstance(s, ast.AugAssign) and src(s.target) == th)) and s.lineno < lp.lineno]
         rec = [s for s in w.body if isinstance(s, ast.Assign) and isinstance(s.value, ast.Call) and 'FKinSpace' in src(s.value.func) and s.lineno > lp.end_lineno]
         late = [s for s in w.body if isinstance(s, ast.Assign) and src(s.targets[0]) == th and s.lineno > lp.end_lineno]
         rep.ob('R07.3', kc, 'Newton update < clamp < error recomputation', bool(upd) and bool(rec) and not late,
@@ -165,6 +166,16 @@ def check(model, rep):
         rep.ob('R07.3', cik, src(c), len(a) == 2 and a[0].startswith('self.joint_mins[') and a[1].startswith('self.joint_maxs['),
                'restart seeds are not drawn from inside the joint limits', line=c.lineno)
 
+    # ---------------------------------------------------------------- R07.6
+    rep.rule('R07.6', 'the IK kernels never write the storage of the start vector they are given (Arm.IK hands them a view of its own joint state)')
+    from ..engine.effects import Effects
+    fx = Effects(model)
+    for kfi, pname in ((kc, kc.params[3]), (model.func(tv.PORT_MOD, 'IKinSpace'), 'thetalist0'), (model.func(tv.PORT_MOD, 'IKinBody'), 'thetalist0')):
+        s_ = fx.summary(kfi)
+        sites = [(n_, how) for (p_, k_), lst in s_.writes.items() if p_ == pname and k_ != 'meta' for (n_, how) in lst]
+        rep.ob('R07.6', kfi, 'start vector `%s` left unwritten' % pname, not sites,
+               ('the solver iterates in place in the caller\'s array (%s, line %d): Arm.IK passes a view of the stored joint vector, so a failed '
+                'solve leaves the arm\'s joints at the last iterate while its reported tool pose is unchanged' % (sites[0][1], sites[0][0].lineno)) if sites else 'not written')
     # ---------------------------------------------------------------- R07.4
     rep.rule('R07.4', 'IK/constrainedIK: success may be true at a return only if FK(returned vector) wrote the state; the flag is the '
                       'kernel\'s; every exit leaves the reported pose coherent')
@@ -234,6 +245,9 @@ def check(model, rep):
             if not bad:
                 rep.ob('R07.4', fi, 'state coherent on every exit of ' + fi.name, True, '%d exits' % n_exits)
 
+    from .c02 import closure_obligations
+    n = closure_obligations(model, rep, 'R07.7', [kc, arm.methods['IK'], arm.methods['constrainedIK']], 'the Newton IK solvers (FKinSpace, JacobianSpace, MatrixLog6, Adjoint, TransInv, IKinSpace)')
+    rep.floor('R07.7', 'shared primitives under the IK solvers', len(n), 10)
     # ---------------------------------------------------------------- R07.5
     rep.rule('R07.5', 'IKinSpaceConstrained minus its clamp block, parameters mapped by role, has the normal form of IKinSpace')
     node = copy.deepcopy(kc.node)
